@@ -118,6 +118,10 @@ int main(int argc, char** argv) {
         } else if (op == "run") {
             prog->run();
             std::cout << " ok\n";
+        } else if (op == "runall") {
+            // file-based entry point on the same instance: load the inputs from IN, evaluate, write the outputs to OUT
+            prog->runAll(f[1], f[2], true, false);
+            std::cout << " ok\n";
         } else if (op == "purgein") {
             prog->purgeInputRelations();
             std::cout << " ok\n";
